@@ -428,6 +428,9 @@ def units(tier: str, seed: int) -> list[Unit]:
         us.append(Unit(f"conc{i}", unit_hyp, {"n": n, "offset": 100 + i, "concurrent": True}))
     for i in range(2):
         us.append(Unit(f"override{i}", unit_hyp, {"n": n, "offset": 200 + i, "concurrent": False, "override": True}))
+    for i in range(3):
+        # concurrent senders where some messages carry a per-message compress override
+        us.append(Unit(f"conc-override{i}", unit_hyp, {"n": n, "offset": 300 + i, "concurrent": True, "override": True}))
     sizes = BOUNDARY_SIZES if tier == "quick" else sorted(set(BOUNDARY_SIZES + list(range(120, 132)) + [65534, 65538, 2 ** 20, 2 ** 20 + 1]))
     for sh in range(4):
         us.append(Unit(f"grid{sh}", unit_grid, {"shard": sh, "nshards": 4, "sizes": sizes}))
